@@ -1378,9 +1378,9 @@ func c11Directed(seed int64, emit c11Emit) {
 func c11Huge(seed int64, emit c11Emit) {
 	for kind := 0; kind < 7; kind++ {
 		for _, s := range c11ListSlots(kind) {
-			lens := []int{131071, 131072, 131073}
+			lens := []int{131072, 131073}
 			if ev.Thorough() {
-				lens = append(lens, 200000)
+				lens = append(lens, 131071, 200000)
 				if kind == 3 {
 					lens = append(lens, 432000)
 				}
@@ -1435,7 +1435,9 @@ func TestVerifC11(t *testing.T) {
 		return
 	}
 	if replay {
+		// re-enumerate the named case (tier-independent: the thorough list is a superset of the quick one)
 		seed = rc.Seed
+		os.Setenv("VERIF_TIER", "thorough")
 	}
 
 	var encRejected, encRejectedForeign int
@@ -1482,6 +1484,13 @@ func TestVerifC11(t *testing.T) {
 
 	// random mass, in parallel (the case list depends on seed and index only)
 	nRandom := ev.Pick(20000, 1000000)
+	if replay {
+		nRandom = 0
+		var i int
+		if _, err := fmt.Sscanf(rc.ID, "rand/%d", &i); err == nil {
+			c11Random(seed, i, emit)
+		}
+	}
 	workers := runtime.GOMAXPROCS(0)
 	if workers > 8 {
 		workers = 8
